@@ -117,7 +117,7 @@ def impl_coverage(comp: str) -> dict | None:
 
 def kernel_samples(comp: str, tier: str) -> dict | None:
     """simulator, loader and parser: the Lean kernel itself (by decide) confirms model = implementation on small generated inputs"""
-    if comp not in ("sim", "loader", "text"):
+    if comp not in ("sim", "loader", "text", "queue"):
         return None
 
     def compute():
